@@ -6,10 +6,13 @@ import Autog.Model.Phase5
 namespace Autog
 open Phase4Simple
 
-/-- all sizes and coordinates of the nodes, and the layer sizes, multiplied by c -/
+/-- all sizes and coordinates of the nodes, the layer sizes and the route points of the edges, multiplied by c -/
+def scalePt (c : Rat) (p : Pt) : Pt := (c * p.1, c * p.2)
+
 def scaleG (c : Rat) (g : G) : G :=
   { g with nodes := g.nodes.map fun n => { n with x := c * n.x, y := c * n.y, w := c * n.w, h := c * n.h },
-           layers := g.layers.map fun l => { l with w := c * l.w, h := c * l.h } }
+           layers := g.layers.map fun l => { l with w := c * l.w, h := c * l.h },
+           edges := g.edges.map fun ed => { ed with pts := ed.pts.map (scalePt c) } }
 
 theorem scaleG_node_w (c : Rat) (g : G) (n : Nat) : ((scaleG c g).node n).w = c * (g.node n).w := by
   simp only [scaleG, G.node, Array.getD_eq_getD_getElem?, Array.getElem?_map]
